@@ -10,9 +10,18 @@
 (*   Descend, Exec, Unwind                         (resolver micro-steps)  *)
 (*   Enter, NestBegin, NestReturn   (a user function that, while it runs,  *)
 (*                                   calls Invoke on the container again)  *)
-(* plus a declarative layer (Source, Feeders, Closure, Buildable,          *)
-(* CyclicInView ...) that knows nothing about stacks and caches, against   *)
-(* which the properties C01..C20 are stated.                               *)
+(* plus a declarative layer (Source, Feeders, Closure, CyclicInView,       *)
+(* CyclicPermissive ...) that knows nothing about stacks and caches,       *)
+(* against which the properties C01..C20 are stated as invariants and      *)
+(* action properties at the end of the module.                             *)
+(*                                                                         *)
+(* The machine is implementation-shaped on purpose, so that it can be      *)
+(* bound to the code step by step: replay of every behaviour TLC generates *)
+(* (DigGen), validation of executions recorded from the code (DigTrace).   *)
+(* With FreeOrder = FALSE it is deterministic up to the outcome of user    *)
+(* functions and predicts the very order in which the implementation       *)
+(* builds things; with FreeOrder = TRUE it is the weakest machine the      *)
+(* properties allow in that respect.                                       *)
 (*                                                                         *)
 (* The catalog (which functions exist, their flat parameter and result     *)
 (* lists, the scope they are given to) is data: Cats is a sequence of      *)
@@ -51,12 +60,12 @@ VARIABLES
   verified,  \* set of scopes whose graph was verified acyclic since its last change
   execs,     \* function id -> number of times the user function was entered
   okn,       \* function id -> execution number of its successful execution (0: none)
-  stack,     \* resolver stack: sequence of frames [f, view, pi, args]
+  stack,     \* resolver stack: sequence of frames (see NewFrame); nested Invokes stack up on it
   fail,      \* failure being propagated, or NoFail
   cur,       \* the API call in progress / last completed: [op, f, s, active]
   tried,     \* functions already offered to Provide / Decorate (each at most once)
   ninv, nfault, \* counters for the bounds
-  log,       \* events of the current / last call (exec, cb), cleared when a call begins
+  log,       \* events of the current / last call (exec, cb, nest), cleared when a call begins
   ret        \* descriptor of the last completed call
 
 vars == <<ci, opt, created, reg, decs, vals, dvals, grps, dgrps, called, dcalled,
